@@ -190,7 +190,9 @@ def pop_case(draw):
     if not conns:
         conns.append(c)
     return {"pspec": {"ops": ops, "ntypes": ntypes, "pops": pops, "conns": conns},
-            "cfg": {"dt": 0.01, "steps": draw(st.integers(10, 25))}}
+            "cfg": {"dt": 0.01, "steps": draw(st.integers(10, 25)),
+                    # the judged run is the first translation of the template objects, or follows an earlier one
+                    "warmup": draw(st.sampled_from([None, None, None, "run", "run_other_dt", "get_run_func"]))}}
 
 
 class PopArm(Arm):
@@ -198,7 +200,7 @@ class PopArm(Arm):
     budget = {"quick": 1500, "thorough": 15000}
     min_per_shard = 20
     required_labels = ("matrix", "scalar_weight", "non_square", "heterogeneous_params", "coupling_edge", "delay",
-                       "delay+spread", "two_populations")
+                       "delay+spread", "two_populations", "second_translation:run", "second_translation:get_run_func")
 
     def strategy(self, ctx):
         return pop_case()
@@ -266,6 +268,19 @@ class PopArm(Arm):
         isolate.reset()
         try:
             circ = build_population_circuit(ps)
+            wu = cfg.get("warmup")
+            if wu:
+                # an earlier translation of the same PopulationTemplate / Connectivity objects (in_place=False: C14)
+                res.labels = sorted(set(res.labels) | {"second_translation:" + wu})
+                with warnings.catch_warnings():
+                    warnings.simplefilter("ignore")
+                    if wu == "get_run_func":
+                        circ.get_run_func("pv_warm", step_size=dt, solver="euler", verbose=False, clear=True, in_place=False,
+                                          float_precision="float64", file_name="pv_gen_warm")
+                    else:
+                        dtw = dt if wu == "run" else dt / 2
+                        circ.run(simulation_time=4 * dt, step_size=dtw, outputs=dict(outputs), solver="euler",
+                                 verbose=False, clear=True, in_place=False, float_precision="float64")
             with warnings.catch_warnings():
                 warnings.simplefilter("ignore")
                 df = circ.run(simulation_time=steps * dt, step_size=dt, outputs=dict(outputs), solver="euler",
